@@ -139,6 +139,19 @@ chk("C14", "model_checking",
     "TLA+ spec (Manifest over UriAlgebra) model-checked by TLC; exhaustive spec->impl replay via independent DER encoder; impl->spec trace validation",
     "DESIGN.md §3 C14")
 
+chk("C01", "model_checking",
+    "CertChain.tla states acceptance of TA / CA / EE / router certificates and the validated resources (missing, inherit, blocks; "
+    "Refuse: covered or rejected, Trim: intersection); TLC checks that resources never grow along a chain and that every combination "
+    "of the identity facets (signing key, AKI, SKI validity, signature-bit / TBS-byte tamper, notBefore/notAfter vs now) other than the "
+    "conforming one rejects. Every behaviour (44k resource chains, 4.5k identity variants, and every issuer/claim pair of sets over a "
+    "small line from C03's model) is realised with real RSA keys and DER (SKI patched and re-signed, bits flipped), decoded and "
+    "validated by the library; verdict and validated resources are compared at each step. Random links with large full-width "
+    "resource sets are coordinate-compressed and validated by Trace_CertChain with ResChain's VerifyIssued.",
+    "Cryptography observed only through verdicts; byte tampering sampled (one signature bit, one TBS byte); router certificates "
+    "expose only a verdict.",
+    "TLA+ spec (CertChain, ResChain) model-checked by TLC; behaviours replayed into real certificates; impl->spec trace validation",
+    "DESIGN.md §3 C01")
+
 ALL = ["C%02d" % i for i in range(1, 18)]
 
 
